@@ -57,6 +57,11 @@ type tlsWrites struct {
 	total   int
 	over    bool
 	clamped bool // a write > 65535 was replaced by 65535 because the finding is listed
+	// refused[i]: the connection under the writer refuses every Write during
+	// write #i (an expired write deadline: 0 bytes, an error); nothing of that
+	// write reaches the wire, and the writes after it must be unaffected.
+	refused    []bool
+	anyRefused bool
 	classes map[string]bool
 }
 
@@ -80,6 +85,13 @@ func genTLSWrites(t *rapid.T, label string, known bool, st *pbt.Stats, minN int,
 	}
 	w.all = ar.take(w.total)
 	drawInto(t, label+"Data", w.all)
+	w.refused = make([]bool, n)
+	if n > 1 && rapid.IntRange(0, 3).Draw(t, label+"Faults") == 0 {
+		for i := range w.refused {
+			w.refused[i] = rapid.IntRange(0, 2).Draw(t, label+"Refused") == 0
+			w.anyRefused = w.anyRefused || w.refused[i]
+		}
+	}
 	off := 0
 	for _, ln := range lens {
 		w.data = append(w.data, w.all[off:off+ln:off+ln])
@@ -90,8 +102,26 @@ func genTLSWrites(t *rapid.T, label string, known bool, st *pbt.Stats, minN int,
 
 // checkTLSDirection: writer writes all of w, reader reads it back; the wire is
 // parsed by the reference record reader.
-func checkTLSDirection(dir string, wr, rd *faketls.FakeTLS, half *seqHalf, w tlsWrites, sizes []int) error {
+func checkTLSDirection(dir string, wr, rd *faketls.FakeTLS, wrEnd *seqEnd, half *seqHalf, w tlsWrites, sizes []int) error {
+	want := w.all
+	if w.anyRefused {
+		want = nil
+	}
 	for i, d := range w.data {
+		if w.refused[i] {
+			wrEnd.refuse = true
+			n, err := wr.Write(d)
+			wrEnd.refuse = false
+			if err == nil && len(d) > 0 {
+				return fmt.Errorf("%s Write #%d (%d bytes) on a connection that refused every write: returned %d, nil", dir, i, len(d), n)
+			}
+			// what Write says it wrote is what the peer must see
+			want = append(want, d[:min(max(n, 0), len(d))]...)
+			continue
+		}
+		if w.anyRefused {
+			want = append(want, d...)
+		}
 		n, err := wr.Write(d)
 		if err != nil {
 			return fmt.Errorf("%s Write #%d (%d bytes): %v", dir, i, len(d), err)
@@ -100,7 +130,6 @@ func checkTLSDirection(dir string, wr, rd *faketls.FakeTLS, half *seqHalf, w tls
 			return fmt.Errorf("%s Write #%d (%d bytes) returned %d", dir, i, len(d), n)
 		}
 	}
-	want := w.all
 	// the wire first: it tells which record is wrong
 	app, recs, err := ref.FakeTLSAppData(half.buf)
 	if err != nil {
@@ -146,10 +175,10 @@ func TestC19(t *testing.T) {
 		b2a.buf = make([]byte, 0, down.total+down.total/4096+128)
 		a := faketls.NewFakeTLS(rndA, endA)
 		b := faketls.NewFakeTLS(rndB, endB)
-		if err := checkTLSDirection("A->B", a, b, a2b, up, sizes); err != nil {
+		if err := checkTLSDirection("A->B", a, b, endA, a2b, up, sizes); err != nil {
 			t.Fatalf("[signature %s] %v", sigOf(up), err)
 		}
-		if err := checkTLSDirection("B->A", b, a, b2a, down, sizes); err != nil {
+		if err := checkTLSDirection("B->A", b, a, endB, b2a, down, sizes); err != nil {
 			t.Fatalf("[signature %s] %v", sigOf(down), err)
 		}
 		cls := []string{"chunks:" + pcUp + "/" + pcDown}
@@ -160,6 +189,9 @@ func TestC19(t *testing.T) {
 			if !up.classes[c] {
 				cls = append(cls, c)
 			}
+		}
+		if up.anyRefused || down.anyRefused {
+			cls = append(cls, "some-write-refused-by-connection")
 		}
 		over := up.over || down.over
 		if over {
@@ -349,8 +381,8 @@ func c19BigWriteViolation() string {
 		a := faketls.NewFakeTLS(pbt.NewStream(1), endA)
 		b := faketls.NewFakeTLS(pbt.NewStream(2), endB)
 		d := pbt.NewStream(uint64(n)).Bytes(n)
-		w := tlsWrites{all: d, data: [][]byte{d}, over: true}
-		if err := checkTLSDirection("A->B", a, b, a2b, w, []int{4096}); err != nil {
+		w := tlsWrites{all: d, data: [][]byte{d}, over: true, refused: []bool{false}}
+		if err := checkTLSDirection("A->B", a, b, endA, a2b, w, []int{4096}); err != nil {
 			return err.Error()
 		}
 	}
@@ -368,9 +400,28 @@ func TestC19Regression_write_over_65535(t *testing.T) {
 	a := faketls.NewFakeTLS(pbt.NewStream(1), endA)
 	b := faketls.NewFakeTLS(pbt.NewStream(2), endB)
 	d := pbt.NewStream(3).Bytes(65535)
-	w := tlsWrites{all: d, data: [][]byte{d}}
-	if err := checkTLSDirection("A->B", a, b, a2b, w, []int{4096}); err != nil {
+	w := tlsWrites{all: d, data: [][]byte{d}, refused: []bool{false}}
+	if err := checkTLSDirection("A->B", a, b, endA, a2b, w, []int{4096}); err != nil {
 		t.Fatalf("control (65535 bytes): %v", err)
+	}
+}
+
+// TestC19Regression_write_after_refused_write: a Write that the connection
+// refused entirely (0 bytes, an error) leaves nothing behind: the writes after
+// it, a retry included, reach the peer alone.
+func TestC19Regression_write_after_refused_write(t *testing.T) {
+	for _, first := range []bool{true, false} {
+		endA, endB, a2b, _ := seqPair(nil, nil)
+		a := faketls.NewFakeTLS(pbt.NewStream(1), endA)
+		b := faketls.NewFakeTLS(pbt.NewStream(2), endB)
+		d := pbt.NewStream(3).Bytes(12)
+		w := tlsWrites{all: d, data: [][]byte{d[:4], d[4:8], d[4:8], d[8:]}, refused: []bool{false, true, false, false}, anyRefused: true}
+		if first {
+			w = tlsWrites{all: d, data: [][]byte{d[:4], d[:4], d[4:]}, refused: []bool{true, false, false}, anyRefused: true}
+		}
+		if err := checkTLSDirection("A->B", a, b, endA, a2b, w, []int{4096}); err != nil {
+			t.Fatalf("C19 [signature C19/stream] refused write first=%v: %v", first, err)
+		}
 	}
 }
 
